@@ -28,16 +28,44 @@ M32 = 0xFFFFFFFF
 
 
 # ---- C++ harness -------------------------------------------------------------------------------------------
+EXES = {}         # link order -> executable; see build_harness()
+ORDERS = (('startup-first', 'c06_startup.cc and the harness linked BEFORE crc.cc (their namespace-scope objects are constructed before '
+           'the dynamic initialisers of crc.cc run)'),
+          ('startup-last', 'c06_startup.cc and the harness linked AFTER crc.cc'))
+
+
 def build_harness(ctx):
-    exe = os.path.join(fv.BUILD, 'c06_harness')
+    """Compiles the harness, cxx/c06_startup.cc and the repository's sources once and links them in both orders.  Returns the
+    executable of the first order (harness objects first - the usual 'application objects, then the library'), which is the one
+    every request goes to; run_startup() uses both."""
     src = os.path.join(fv.REPO, 'src')
-    cmd = ['clang++', '-std=c++14', '-O1', '-g', '-Wall', '-fsanitize=address,undefined', '-fno-sanitize-recover=all',
-           '-I' + src, os.path.join(fv.VERIF, 'cxx', 'c06_harness.cc')] + [os.path.join(src, s) for s in SRC] + ['-o', exe]
-    rc, out = fv.sh(cmd, timeout=600)
-    if rc != 0:
-        ctx.proof_failures.append('harness does not compile against %s: %s' % (src, out[-1500:]))
-        return None
-    return exe
+    objdir = os.path.join(fv.BUILD, 'c06_obj')
+    os.makedirs(objdir, exist_ok=True)
+    flags = ['-std=c++14', '-O1', '-g', '-Wall', '-fsanitize=address,undefined', '-fno-sanitize-recover=all', '-I' + src]
+    units = [os.path.join(fv.VERIF, 'cxx', 'c06_startup.cc'), os.path.join(fv.VERIF, 'cxx', 'c06_harness.cc')] + \
+        [os.path.join(src, s) for s in SRC]
+    objs = [os.path.join(objdir, '%d_%s.o' % (i, os.path.basename(u))) for i, u in enumerate(units)]
+    results = [None] * len(units)
+
+    def compile_one(i):
+        results[i] = fv.sh(['clang++'] + flags + ['-c', units[i], '-o', objs[i]], timeout=600)
+    ths = [threading.Thread(target=compile_one, args=(i,)) for i in range(len(units))]
+    for t in ths:
+        t.start()
+    for t in ths:
+        t.join()
+    for (rc, out), u in zip(results, units):
+        if rc != 0:
+            ctx.proof_failures.append('harness does not compile against %s: %s: %s' % (src, u, out[-1500:]))
+            return None
+    for order, link in (('startup-first', objs), ('startup-last', objs[2:] + [objs[1], objs[0]])):
+        exe = os.path.join(fv.BUILD, 'c06_harness' if order == 'startup-first' else 'c06_harness_' + order)
+        rc, out = fv.sh(['clang++'] + flags + link + ['-o', exe], timeout=600)
+        if rc != 0:
+            ctx.proof_failures.append('harness does not link (%s): %s' % (order, out[-1500:]))
+            return None
+        EXES[order] = exe
+    return EXES['startup-first']
 
 
 FAULTS = {}      # request line during which the harness died -> one-line summary of the sanitizer report
@@ -93,8 +121,7 @@ def run_harness(ctx, exe, lines, nproc=None):
     nproc = min(12, len(lines), nproc or max(1, len(lines) // 40))
     chunks = [lines[i::nproc] for i in range(nproc)]
     results = [None] * nproc
-    env = dict(os.environ, ASAN_OPTIONS='detect_leaks=1:abort_on_error=0:allocator_may_return_null=1',
-               UBSAN_OPTIONS='print_stacktrace=1')
+    env = dict(os.environ, **HARNESS_ENV)
 
     def work(i):
         todo = chunks[i]
@@ -128,6 +155,72 @@ def run_harness(ctx, exe, lines, nproc=None):
     return out
 
 
+HARNESS_ENV = dict(ASAN_OPTIONS='detect_leaks=1:abort_on_error=0:allocator_may_return_null=1', UBSAN_OPTIONS='print_stacktrace=1')
+WHENS = (('static-init', 'called during static initialisation (from the constructor of a namespace-scope object of another translation unit)'),
+         ('main-after-static-init-calls', 'called from main() of a process that made the same calls during static initialisation'))
+
+
+def run_startup(ctx, lines, nproc=None):
+    """Every request answered DURING STATIC INITIALISATION (C06_SERVE_AT_STARTUP, see cxx/c06_startup.cc) and once more from main()
+    of the same process, by the executables of both link orders.  -> [((order, when), answers)], four phases, each a list with
+    one answer per request line ('fault' as in run_harness)."""
+    res = []
+    if not lines:
+        return res
+    nproc = min(12, len(lines), nproc or max(1, len(lines) // 25))
+    for order, _ in ORDERS:
+        exe = EXES[order]
+        early, late = [None] * len(lines), [None] * len(lines)
+
+        def work(ids):
+            todo = list(ids)
+            while todo:
+                n = len(todo)
+                p = subprocess.run([exe], input='\n'.join(lines[i] for i in todo + todo) + '\n', stdout=subprocess.PIPE, stderr=subprocess.PIPE,
+                                   text=True, env=dict(os.environ, C06_SERVE_AT_STARTUP=str(n), **HARNESS_ENV))
+                ans = p.stdout.split('\n')
+                if ans and ans[-1] == '':
+                    ans.pop()
+                ans = ans[:2 * n]
+                for j, a in enumerate(ans):
+                    (early if j < n else late)[todo[j % n]] = a
+                if len(ans) == 2 * n:
+                    return
+                k = len(ans)                  # died while executing request k of 2n
+                dead = todo[k % n]
+                ctx.notes.append('harness (%s) died on request %r (%s): %s' % (order, lines[dead][:200], WHENS[0][0] if k < n else WHENS[1][0], p.stderr[-1500:]))
+                FAULTS[lines[dead]] = fault_summary(p.stderr)
+                if k < n:
+                    early[dead] = late[dead] = 'fault'
+                    todo = todo[:k] + todo[k + 1:]          # the ones before it have no answer from main() yet
+                else:
+                    late[dead] = 'fault'
+                    todo = todo[k - n + 1:]
+        ths = [threading.Thread(target=work, args=(list(range(i, len(lines), nproc)),)) for i in range(nproc)]
+        for t in ths:
+            t.start()
+        for t in ths:
+            t.join()
+        if any(a is None for a in early + late):
+            raise fv.InfraError('run_startup: unanswered requests (%s)' % order)
+        res.append(((order, WHENS[0][0]), early))
+        res.append(((order, WHENS[1][0]), late))
+        ctx.count('cxx_requests_answered_during_static_initialisation', len(lines))
+    return res
+
+
+def phase_sfx(phase):
+    return '' if phase is None else '-during-static-initialisation' if phase[1] == 'static-init' else '-after-calls-during-static-initialisation'
+
+
+def phase_text(phase):
+    return '' if phase is None else ' [%s; link order: %s]' % (dict(WHENS)[phase[1]], dict(ORDERS)[phase[0]])
+
+
+def with_phase(replay, phase):
+    return replay if phase is None else dict(replay, phase=list(phase))
+
+
 # ---- the Python code under test ----------------------------------------------------------------------------
 def repo_crc32():
     from fusion_engine_client.messages import defs
@@ -145,6 +238,105 @@ def py_validate(buf):
         return 0
     except Exception as e:  # e.g. struct.error on a buffer shorter than a header
         return 'raised:' + type(e).__name__
+
+
+OPTIONS = ('validate_sync', 'validate_crc', 'warn_on_unrecognized', 'return_sync_bytes')     # in the order of unpack()'s signature
+PREFIX = b'\x2e\x31\x07'      # what precedes the message in the caller's buffer when the call gives a non-zero offset
+
+
+def unpack_forms():
+    """Every way a caller can write MessageHeader.unpack(buffer, offset, validate_sync, validate_crc, warn_on_unrecognized,
+    return_sync_bytes): each option omitted, False or True by keyword (3^4) x offset omitted / non-zero positional / non-zero by
+    keyword; and options given positionally (all four, and the first two with the other two omitted; then the offset is
+    positional too: 0 or non-zero).  -> [(text, offset, positional args after the buffer, keyword args, {option: effective value})]"""
+    if unpack_forms.cache:
+        return unpack_forms.cache
+    defaults = dict(validate_sync=False, validate_crc=False, warn_on_unrecognized=True, return_sync_bytes=False)
+    res = []
+
+    def add(off, pos, kw, given):
+        text = 'unpack(%s)' % ', '.join(['buffer'] + [repr(a) for a in pos] + ['%s=%r' % kv for kv in kw.items()])
+        res.append((text, off, tuple(pos), kw, dict(defaults, **given)))
+    for vals in itertools.product((None, False, True), repeat=4):
+        given = {k: v for k, v in zip(OPTIONS, vals) if v is not None}
+        add(0, (), dict(given), given)
+        add(len(PREFIX), (len(PREFIX),), dict(given), given)
+        add(len(PREFIX), (), dict(offset=len(PREFIX), **given), given)
+    for off in (0, len(PREFIX)):
+        for vals in itertools.product((False, True), repeat=4):
+            add(off, (off,) + vals, {}, dict(zip(OPTIONS, vals)))
+        for vals in itertools.product((False, True), repeat=2):
+            add(off, (off,) + vals, {}, dict(zip(OPTIONS, vals)))
+            add(off, (off,) + vals, {'return_sync_bytes': True}, dict(zip(OPTIONS, vals), return_sync_bytes=True))
+    unpack_forms.cache = res
+    return res
+
+
+unpack_forms.cache = []
+
+
+def crc_forms():
+    """The call forms that request CRC validation (the plain one, unpack(buffer, validate_crc=True, warn_on_unrecognized=False), is
+    what py_validate() calls)."""
+    return [f for f in unpack_forms() if f[4]['validate_crc']]
+
+
+def py_unpack(form, buf, header=None):
+    """One call form on the message `buf`: ('ok', return value, header object) | 0 for ValueError | 'raised:<type>'."""
+    import logging
+    from fusion_engine_client.messages import MessageHeader
+    text, off, pos, kw, _ = form
+    h = MessageHeader() if header is None else header
+    before = logging.root.manager.disable
+    logging.disable(logging.CRITICAL)      # warn_on_unrecognized=True (the default) logs; the text is not what is judged here
+    try:
+        return ('ok', h.unpack(PREFIX + bytes(buf) if off else buf, *pos, **kw), h)
+    except ValueError:
+        return 0
+    except Exception as e:
+        return 'raised:' + type(e).__name__
+    finally:
+        logging.disable(before)
+
+
+ROTATE = [0]
+
+
+def some_crc_forms(n):
+    """The next n CRC-requesting call forms, in rotation over all of them (so that every form meets thousands of altered messages of
+    every kind in a run)."""
+    forms = crc_forms()
+    ROTATE[0] += n
+    return [forms[(ROTATE[0] + 37 * i) % len(forms)] for i in range(n)]
+
+
+def forms_accepting(forms, bad):
+    """Of the given CRC-requesting call forms, those that do not refuse the altered message `bad`: [(form text, what happened)]."""
+    res = []
+    for form in forms:
+        r = py_unpack(form, bad)
+        if r != 0:
+            res.append((form[0], 'returned %r' % (r[1],) if isinstance(r, tuple) else r))
+    return res
+
+
+def judge_forms_on_valid(ctx, label, b, forms):
+    """An encoder output given to unpack() in each call form: accepted, the documented return value, the header's fields."""
+    replay = {'kind': 'valid', 'label': label, 'msg': hx(b)}
+    s0, s1, res, crc, pv_, mv, mt, seq, sz, sid = struct.unpack_from('<BBHIBBHIII', b, 0)
+    for form in forms:
+        r = py_unpack(form, b)
+        ctx.count('unpack_call_forms_on_encoder_output')
+        want = (HDR, b[:2]) if form[4]['return_sync_bytes'] else HDR
+        if not isinstance(r, tuple):
+            ctx.violation('C06/encoder-output-rejected-by-unpack-call-form', '%s on %s -> %s' % (form[0], label, 'ValueError' if r == 0 else r),
+                          dict(replay, unpack_form=form[0]))
+            continue
+        h = r[2]
+        got = (h.crc, h.message_version, int(h.message_type), h.sequence_number, h.payload_size_bytes, h.source_identifier)
+        if r[1] != want or type(r[1]) is not type(want) or got != (crc, mv, mt, seq, sz, sid):
+            ctx.violation('C06/unpack-call-form-result', '%s on %s returned %r (documented: %r); fields (crc, version, type, sequence, size, source) = %s, '
+                          'the message carries %s' % (form[0], label, r[1], want, got, (crc, mv, mt, seq, sz, sid)), dict(replay, unpack_form=form[0]))
 
 
 def py_validate_direct(buf):
@@ -334,6 +526,19 @@ def check_crc(ctx, exe):
             z = crc32(bytes([a]), init)
             ctx.case('crc1 %d %d' % (init, a))
             judge_crc(ctx, bytes([a]), init, z, cx[a], ln[a], None)
+    # the same requests answered during static initialisation, and by main() afterwards, in both link orders
+    for phase, sout in run_startup(ctx, hl):
+        for idx, init in enumerate(inits1):
+            cx = sout[idx].split(',')
+            for a in range(256 if len(cx) == 256 else 1):
+                ctx.case('crc1 %d %d %s' % (init, a, phase))
+                judge_crc(ctx, bytes([a]), init, crc32(bytes([a]), init), cx[a], None, None, phase)
+        cx2 = sout[len(inits1)].split(',')
+        for ab in range(65536 if len(cx2) == 65536 else 1):
+            buf = bytes([ab >> 8, ab & 255])
+            if cx2[ab] == 'fault' or int(cx2[ab]) != crc32(buf):
+                judge_crc(ctx, buf, 0, crc32(buf), cx2[ab], None, None, phase)
+        ctx.cov['evaluations'] += 65536
     cx2 = hout[len(inits1)].split(',')
     base = len(inits1)
     for a in range(256):
@@ -369,6 +574,10 @@ def check_crc(ctx, exe):
         if init != 0 and int(dout[2 * i + 1]) != crc32(buf):
             ctx.disagree('bit-serial model != zlib', {'kind': 'crc', 'init': 0, 'buf': hx(buf)})
         ctx.count('crc_random_buffers')
+    for phase, sout in run_startup(ctx, hl):
+        for (buf, init), cx in zip(meta, sout):
+            ctx.case(b'crcR' + buf + struct.pack('<I', init) + repr(phase).encode())
+            judge_crc(ctx, buf, init, crc32(buf, init), cx, None, None, phase)
     if meta:
         ctx.sample({'crc_of': hx(meta[5][0]), 'init': meta[5][1], 'zlib=cxx=lean': crc32(meta[5][0], meta[5][1])})
 
@@ -393,11 +602,15 @@ def check_crc(ctx, exe):
             replay = {'kind': 'split', 'buf': hx(buf), 'k': k}
             if z != whole:
                 ctx.violation('C06/crc-incremental-python', 'crc32(b[%d:], crc32(b[:%d])) = %d but crc32(b) = %d' % (k, k, z, whole), replay)
-            if cx[k] == 'fault' or int(cx[k]) != whole:
-                ctx.violation('C06/crc-incremental-cxx', 'CalculateCRC(b+%d, n-%d, CalculateCRC(b, %d)) = %s but zlib.crc32(b) = %d'
-                              % (k, k, k, cx[k], whole), replay)
+            judge_split_cxx(ctx, buf, k, cx[k] if len(cx) > k else 'fault', whole, None)
             if int(ln[k]) != whole:
                 ctx.disagree('model crc32 split at %d gives %s, zlib gives %d' % (k, ln[k], whole), replay)
+    for phase, sout in run_startup(ctx, hl):
+        for buf, ans in zip(meta, sout):
+            cx = ans.split(',')
+            for k in range(len(buf) + 1):
+                ctx.case(b'split' + buf + bytes([k]) + repr(phase).encode())
+                judge_split_cxx(ctx, buf, k, cx[k] if len(cx) > k else 'fault', crc32(buf), phase)
 
     # (4) the affine law on the implementation: crc(a ^ e) ^ crc(a) = L(e), L from the Lean definition
     dl, meta = [], []
@@ -419,12 +632,19 @@ def check_crc(ctx, exe):
                          {'kind': 'lin', 'a': hx(a), 'e': hx(e)})
 
 
-def judge_crc(ctx, buf, init, z, cx, tab, spec):
-    replay = {'kind': 'crc', 'init': init, 'buf': hx(buf)}
+def judge_split_cxx(ctx, buf, k, cx, whole, phase):
+    if cx == 'fault' or int(cx) != whole:
+        ctx.violation('C06/crc-incremental-cxx' + phase_sfx(phase), 'CalculateCRC(b+%d, n-%d, CalculateCRC(b, %d)) = %s but zlib.crc32(b) = %d%s'
+                      % (k, k, k, cx, whole, phase_text(phase)), with_phase({'kind': 'split', 'buf': hx(buf), 'k': k}, phase))
+
+
+def judge_crc(ctx, buf, init, z, cx, tab, spec, phase=None):
+    """tab / spec: the Lean answers (None: not asked for this case - the startup phases repeat cases whose Lean answers were compared)."""
+    replay = with_phase({'kind': 'crc', 'init': init, 'buf': hx(buf)}, phase)
     if cx == 'fault' or int(cx) != z:
-        ctx.violation('C06/crc-cxx-differs-from-python', 'CalculateCRC(%s, %d, %d) = %s but crc32 (zlib) gives %d'
-                      % (hx(buf)[:80], len(buf), init, cx, z), replay)
-    if int(tab) != z:
+        ctx.violation('C06/crc-cxx-differs-from-python' + phase_sfx(phase), 'CalculateCRC(%s, %d, %d) = %s but crc32 (zlib) gives %d%s'
+                      % (hx(buf)[:80], len(buf), init, cx, z, phase_text(phase)), replay)
+    if tab is not None and int(tab) != z:
         ctx.disagree('model table CRC of %s init %d = %s, zlib = %d' % (hx(buf)[:80], init, tab, z), replay)
     if spec is not None and int(spec) != z:
         ctx.disagree('bit-serial specification CRC of %s = %s, zlib = %d' % (hx(buf)[:80], spec, z), replay)
@@ -646,8 +866,13 @@ def check_encoder(ctx, exe, objs):
     both = uniq + uniq_hist
     hout = run_harness(ctx, exe, ['msg ' + hx(b) for _, b in both])
     dout = ctx.driver(['validate ' + hx(b) for _, b in both])
-    for (label, b), cx, md in zip(both, hout, dout):
-        judge_valid(ctx, label, b, cx, md)
+    for i, ((label, b), cx, md) in enumerate(zip(both, hout, dout)):
+        judge_valid(ctx, label, b, cx, md, all_forms=i < len(uniq))
+    # the messages of the sessions once more through the C++ validators during static initialisation (both link orders)
+    early = uniq if ctx.thorough or len(uniq) <= 300 else uniq[:20] + rng.sample(uniq[20:], 280)
+    for phase, sout in run_startup(ctx, ['msg ' + hx(b) for _, b in early]):
+        for (label, b), cx in zip(early, sout):
+            judge_valid(ctx, label, b, cx, None, phase=phase)
     return uniq
 
 
@@ -787,37 +1012,44 @@ def parse_kv(s):
     return dict(x.split('=', 1) for x in s.split(' '))
 
 
-def judge_valid(ctx, label, b, cx, md):
-    """An encoder output: every validator accepts it; model validators agree."""
+def judge_valid(ctx, label, b, cx, md, phase=None, all_forms=True):
+    """An encoder output: every validator accepts it; model validators agree.
+    phase: the C++ answer `cx` was given during / after static initialisation (run_startup) - only the C++ validators are judged."""
     crc32 = repo_crc32()
-    replay = {'kind': 'valid', 'label': label, 'msg': hx(b)}
-    ctx.case(b'valid' + b)
-    ctx.count('encoded_messages_validated')
+    replay = with_phase({'kind': 'valid', 'label': label, 'msg': hx(b)}, phase)
+    sfx, ptext = phase_sfx(phase), phase_text(phase)
+    ctx.case(b'valid' + b + repr(phase).encode())
     size = len(b) - HDR
-    pv, pd = py_validate(b), py_validate_direct(b)
-    dec = py_decode(b)
     stored = struct.unpack_from('<I', b, 4)[0]
-    if crc32(b[8:]) != stored:
-        ctx.violation('C06/encoder-crc-wrong', 'stored CRC %d, crc32(message[8:]) = %d' % (stored, crc32(b[8:])), replay)
-    if size <= (1 << 24):
-        if pv != 1 or pd != 1:
-            ctx.violation('C06/encoder-output-rejected-by-validate_crc', 'unpack(validate_crc=True) -> %s, validate_crc -> %s' % (pv, pd), replay)
-        if dec != [(0, b)]:
-            ctx.violation('C06/encoder-output-rejected-by-python-decoder', 'decoder returned %s' %
-                          (dec if isinstance(dec, str) else [(o, len(r)) for o, r in dec]), replay)
+    if phase is None:
+        ctx.count('encoded_messages_validated')
+        pv, pd = py_validate(b), py_validate_direct(b)
+        dec = py_decode(b)
+        if crc32(b[8:]) != stored:
+            ctx.violation('C06/encoder-crc-wrong', 'stored CRC %d, crc32(message[8:]) = %d' % (stored, crc32(b[8:])), replay)
+        if size <= (1 << 24):
+            if pv != 1 or pd != 1:
+                ctx.violation('C06/encoder-output-rejected-by-validate_crc', 'unpack(validate_crc=True) -> %s, validate_crc -> %s' % (pv, pd), replay)
+            if dec != [(0, b)]:
+                ctx.violation('C06/encoder-output-rejected-by-python-decoder', 'decoder returned %s' %
+                              (dec if isinstance(dec, str) else [(o, len(r)) for o, r in dec]), replay)
+            # every way of writing the unpack() call (all of them, or a rotating dozen + the forms that request the CRC check)
+            judge_forms_on_valid(ctx, label, b, unpack_forms() if all_forms else some_crc_forms(12))
     if cx == 'fault':
-        ctx.violation('C06/cxx-fault-on-encoder-output', 'sanitizer report', replay)
+        ctx.violation('C06/cxx-fault-on-encoder-output' + sfx, 'sanitizer report' + ptext, replay)
         return
     c = parse_kv(cx)
     if c['crc'] != str(stored):
-        ctx.violation('C06/py-crc-differs-from-cxx-message-crc', 'CalculateCRC(message) = %s, Python stored %d' % (c['crc'], stored), replay)
+        ctx.violation('C06/py-crc-differs-from-cxx-message-crc' + sfx, 'CalculateCRC(message) = %s, Python stored %d%s' % (c['crc'], stored, ptext), replay)
     if HDR + size <= (1 << 24) and c['valid'] != '1':
-        ctx.violation('C06/encoder-output-rejected-by-IsValid', 'IsValid -> %s' % c['valid'], replay)
+        ctx.violation('C06/encoder-output-rejected-by-IsValid' + sfx, 'IsValid -> %s%s' % (c['valid'], ptext), replay)
     if HDR + size <= (1 << 17) and not c['framer'].startswith('1:'):
-        ctx.violation('C06/encoder-output-rejected-by-framer', 'framer callbacks: %s' % c['framer'], replay)
+        ctx.violation('C06/encoder-output-rejected-by-framer' + sfx, 'framer callbacks: %s%s' % (c['framer'], ptext), replay)
     s0, s1, res, crc, pv_, mv, mt, seq, sz, sid = struct.unpack_from('<BBHIBBHIII', b, 0)
     if c['hdr'] != '%d,%d,%d,%d,%d,%d' % (mt, mv, seq, sid, sz, crc):
-        ctx.violation('C06/header-layout-differs-cxx', 'C++ reads %s, Python wrote %s' % (c['hdr'], (mt, mv, seq, sid, sz, crc)), replay)
+        ctx.violation('C06/header-layout-differs-cxx' + sfx, 'C++ reads %s, Python wrote %s%s' % (c['hdr'], (mt, mv, seq, sid, sz, crc), ptext), replay)
+    if phase is not None:
+        return
     m = parse_kv(md)
     want = {'py': py_canon(pv), 'cxx': {'1': '1', '0': '0', 'oob': 'oob'}[c['valid']], 'framer': '1' if c['crc'] == str(stored) else '0',
             'type': str(mt), 'ver': str(mv), 'seq': str(seq), 'src': str(sid), 'size': str(sz), 'crc': str(crc)}
@@ -991,10 +1223,15 @@ def check_corruption(ctx, exe, encoded):
     answers = run_mut(ctx, exe, jobs)
     pout = iter(run_harness(ctx, exe, pair_lines, nproc=12))
     model_lines, model_pend = [], []
+    # every CRC-requesting unpack() call form on every altered copy of the shortest message and of a few more (one per distinct
+    # length <= 64 bytes in the thorough tier); three forms in rotation on every other altered copy
+    short = [m for _, m in sorted(by_len.values(), key=lambda x: len(x[1])) if len(m) <= 64]
+    every_form = set(short if ctx.thorough else short[:1] + rng.sample(short[1:], min(len(short) - 1, 2)))
+    ctx.count('messages_with_every_unpack_call_form_on_every_altered_copy', len(every_form))
     for (label, msg, cases), cx in zip(pend, answers):
         for (kind, bits), c in zip(cases, cx):
             if c != 'skip':
-                judge_flip(ctx, label, msg, kind, bits, c, follower, model_lines, model_pend)
+                judge_flip(ctx, label, msg, kind, bits, c, follower, model_lines, model_pend, all_forms=msg in every_form)
         if len(msg) <= 64:
             judge_pairs_cxx(ctx, label, msg, next(pout))
             if by_len[len(msg)][1] == msg or ctx.thorough:
@@ -1005,6 +1242,30 @@ def check_corruption(ctx, exe, encoded):
                 for _ in range(1500):
                     i, j = rng.sample(range(32, nb), 2)
                     judge_flip(ctx, label, msg, 'double', (min(i, j), max(i, j)), None, None, model_lines, model_pend)
+    # the altered copies of some messages given to the C++ validators DURING STATIC INITIALISATION (and again from main() of the same
+    # process), in both link orders: the shortest message, a few of every size class, all of their alterations
+    idx = list(range(len(pend)))
+    early = sorted(idx, key=lambda i: len(pend[i][1]))[:2] + rng.sample(idx, min(len(idx), 20 if ctx.thorough else 6))
+    early = [i for k, i in enumerate(early) if i not in early[:k]]
+    lines, where = [], []
+    for i in early:
+        specs = jobs[i][1]
+        for st in range(0, len(specs), 400):
+            lines.append('mut %s %s' % (hx(jobs[i][0]), ';'.join(specs[st:st + 400])))
+            where.append((i, st))
+    early_pairs = pair_lines[:2]
+    sout_all = run_startup(ctx, lines + early_pairs)
+    for phase, sout in sout_all:
+        for (i, st), ans in zip(where, sout):
+            label, msg, cases = pend[i]
+            part = cases[st:st + 400]
+            cxs = ans.split(',') if ans != 'fault' else ['fault:' + FAULTS.get(lines[where.index((i, st))], '?')] * len(part)
+            if len(cxs) != len(part):
+                raise fv.InfraError('mut at start-up: %d answers for %d specs' % (len(cxs), len(part)))
+            for (kind, bits), c in zip(part, cxs):
+                judge_flip(ctx, label, msg, kind, bits, c, None, None, None, phase=phase)
+        for pl, ans in zip(early_pairs, sout[len(lines):]):
+            judge_pairs_cxx(ctx, 'message of %d bytes' % (len(pl.split(' ')[1]) // 2), bytes.fromhex(pl.split(' ')[1]), ans, phase=phase)
     check_padded(ctx, exe, msgs, model_lines, model_pend)
     outs = ctx.driver(model_lines)
     for (replay, want), got in zip(model_pend, outs):
@@ -1015,32 +1276,49 @@ def check_corruption(ctx, exe, encoded):
                 break
 
 
-def judge_flip(ctx, label, msg, kind, bits, cx, follower, model_lines, model_pend, always_model=False, tail=b'', fill=0):
-    """One altered copy (followed by `tail` in the same buffer): every validator must reject it."""
+def judge_flip(ctx, label, msg, kind, bits, cx, follower, model_lines, model_pend, always_model=False, tail=b'', fill=0,
+               all_forms=False, phase=None):
+    """One altered copy (followed by `tail` in the same buffer): every validator must reject it.
+    all_forms: every unpack() call form that requests the CRC check (otherwise three of them, in rotation).
+    phase: the C++ answer `cx` was given during / after static initialisation (run_startup) - only the C++ validators are judged."""
     bad = apply_bits(msg, bits) + tail
     region = region_of(bits)
     size2 = struct.unpack_from('<I', bad, 16)[0]
-    replay = {'kind': 'flip', 'label': label, 'msg': hx(msg), 'bits': list(bits), 'flip_kind': kind,
-              'altered_header': hx(bad[:HDR]), 'altered_payload_size_bytes': size2}
+    sfx = phase_sfx(phase)
+    replay = with_phase({'kind': 'flip', 'label': label, 'msg': hx(msg), 'bits': list(bits), 'flip_kind': kind,
+                         'altered_header': hx(bad[:HDR]), 'altered_payload_size_bytes': size2}, phase)
     if tail:
         replay.update({'total': len(bad), 'fill': fill})
     if len(bad) <= 4096:
         replay['altered'] = hx(bad)
     small = len(bad) <= 8192        # the Python decoder resynchronises byte by byte: long buffers go to the validators only
-    ctx.case(b'flip' + (bad if small else bad[:len(msg)] + b'%d.%d' % (len(bad), fill)), nontrivial=True)
-    ctx.count('%s_%s' % (kind, region))
+    ctx.case(b'flip' + (bad if small else bad[:len(msg)] + b'%d.%d' % (len(bad), fill)) + (repr(phase).encode() if phase else b''), nontrivial=True)
+    ctx.count('%s_%s%s' % (kind, region, sfx))
     tag = '%s-%s' % (kind, 'size-field' if 'size' in region else ('crc-field' if region == 'crc' else 'protected-region' if region == 'data' else 'both-regions'))
-    pv = py_validate(bad)
     accepted = []
-    if pv != 0:
-        accepted.append(('validate_crc', 'unpack(validate_crc=True) -> %s' % pv))
+    pv = 0
+    if phase is None:
+        pv = py_validate(bad)
+        if pv != 0:
+            accepted.append(('validate_crc', 'unpack(validate_crc=True) -> %s' % pv))
+        # whatever else the caller asks of unpack(): whenever validate_crc is requested the altered message is refused
+        forms = crc_forms() if all_forms else some_crc_forms(3)
+        if len(bad) > 8192:             # a form with a non-zero offset copies the buffer behind a prefix
+            forms = [f for f in forms if f[1] == 0]
+        if forms:
+            through = forms_accepting(forms, bad)
+            ctx.count('unpack_call_forms_on_altered_messages', len(forms))
+            if through:
+                replay['unpack_forms_accepting'] = [t for t, _ in through][:12]
+                accepted.append(('unpack-call-form', '%s %s the altered message%s' % (through[0][0], through[0][1], '' if len(through) == 1 else
+                                 ' (and %d more of the call forms tried that request validate_crc)' % (len(through) - 1))))
     run_decoders = cx is not None
     if run_decoders:
-        if small:
+        if small and phase is None:
             dec = py_decode(bad)
             if isinstance(dec, str) or any(o == 0 for o, _ in dec):
                 accepted.append(('python-decoder', 'decoder returned %s' % (dec if isinstance(dec, str) else [(o, len(r)) for o, r in dec])))
-        if follower is not None and (kind != 'single' or bits[0] % 3 == 0):
+        if phase is None and follower is not None and (kind != 'single' or bits[0] % 3 == 0):
             dec2 = py_decode(bad + follower)
             if isinstance(dec2, str) or any(o == 0 for o, _ in dec2):
                 accepted.append(('python-decoder', 'decoder returned %s for the altered message followed by a valid message' %
@@ -1050,24 +1328,24 @@ def judge_flip(ctx, label, msg, kind, bits, cx, follower, model_lines, model_pen
                               (label, [(o, len(r)) for o, r in dec2]), replay)
         if cx.startswith('fault'):
             # the sanitizer stopped the harness while the C++ validators looked at exactly this altered copy
-            ctx.violation('C06/cxx-fault-on-corrupted-message',
+            ctx.violation('C06/cxx-fault-on-corrupted-message' + sfx,
                           'sanitizer report while IsValid / CalculateCRC(buffer) / the framer validated %s (%d bytes%s) with bits %s altered '
-                          '(payload_size_bytes %d -> %d = 0x%x); must be rejected without reading outside the buffer: %s'
+                          '(payload_size_bytes %d -> %d = 0x%x); must be rejected without reading outside the buffer: %s%s'
                           % (label, len(msg), ', in a %d-byte heap buffer' % len(bad) if tail else ', exact-size heap buffer', list(bits),
-                             len(msg) - HDR, size2, size2, cx[6:] or 'see the notes'), replay)
+                             len(msg) - HDR, size2, size2, cx[6:] or 'see the notes', phase_text(phase)), replay)
             cx = 'fff'
         else:
             if cx[0] == '1':
-                accepted.append(('IsValid', 'IsValid() -> true'))
+                accepted.append(('IsValid' + sfx, 'IsValid() -> true' + phase_text(phase)))
             if cx[1] == '1':
-                accepted.append(('cxx-crc-compare', 'header.crc == CalculateCRC(buffer)'))
+                accepted.append(('cxx-crc-compare' + sfx, 'header.crc == CalculateCRC(buffer)' + phase_text(phase)))
             if cx[2] not in '0':
-                accepted.append(('framer', 'framer made %s callbacks' % cx[2]))
+                accepted.append(('framer' + sfx, 'framer made %s callbacks%s' % (cx[2], phase_text(phase))))
             if cx[0] == 'o':
                 ctx.count('cxx_not_called_would_read_past_buffer')
             # the verdict the size limits alone dictate (C06_oversize_rejected): above the limit IsValid is called and says no
             if HDR + size2 > MAXSZ and cx[0] != '0':
-                ctx.violation('C06/%s-not-refused-by-IsValid-size-limit' % tag, 'IsValid -> %s for payload_size_bytes = %d' % (cx[0], size2), replay)
+                ctx.violation('C06/%s-not-refused-by-IsValid-size-limit%s' % (tag, sfx), 'IsValid -> %s for payload_size_bytes = %d%s' % (cx[0], size2, phase_text(phase)), replay)
     if accepted:
         crc32 = repo_crc32()
         reframed = 'size' in region and HDR + size2 <= len(bad) and crc32(bad[8:HDR + size2]) == struct.unpack_from('<I', bad, 4)[0]
@@ -1080,16 +1358,17 @@ def judge_flip(ctx, label, msg, kind, bits, cx, follower, model_lines, model_pen
             for who, what in accepted:
                 ctx.violation('C06/%s-accepted-by-%s' % (tag, who), '%s on %s with bits %s flipped' % (what, label, list(bits)), replay)
     # correspondence with the model validators on a subset (all bursts and doubles handed to C++, every 5th single)
-    if run_decoders and small and (always_model or kind != 'single' or bits[0] % 5 == 0):
+    if phase is None and run_decoders and small and (always_model or kind != 'single' or bits[0] % 5 == 0):
         model_lines.append('validate ' + hx(bad))
         model_pend.append((replay, {'py': py_canon(pv), 'cxx': {'1': '1', '0': '0', 'o': 'oob', 'f': None}[cx[0]],
                                     'framer': {'1': '1', '0': '0', 'o': '0', 'f': None}[cx[1]]}))
 
 
-def judge_pairs_cxx(ctx, label, msg, ans):
-    replay = {'kind': 'pairs', 'label': label, 'msg': hx(msg)}
+def judge_pairs_cxx(ctx, label, msg, ans, phase=None):
+    replay = with_phase({'kind': 'pairs', 'label': label, 'msg': hx(msg)}, phase)
+    sfx = phase_sfx(phase)
     if ans == 'fault':
-        ctx.violation('C06/cxx-fault-on-corrupted-message', 'sanitizer report during the exhaustive double flips', replay)
+        ctx.violation('C06/cxx-fault-on-corrupted-message' + sfx, 'sanitizer report during the exhaustive double flips' + phase_text(phase), replay)
         return
     n, av, ac, first = ans.split(' ')
     nb = 8 * len(msg) - 32
@@ -1101,8 +1380,8 @@ def judge_pairs_cxx(ctx, label, msg, ans):
         i, j = first.split('.')
         replay['bits'] = [int(i), int(j)]
         replay['altered'] = hx(apply_bits(msg, (int(i), int(j))))
-        ctx.violation('C06/double-accepted-by-IsValid', '%s of %s double flips accepted by IsValid, %s by the CRC compare; first: bits %s of %s'
-                      % (av, n, ac, first, label), replay)
+        ctx.violation('C06/double-accepted-by-IsValid' + sfx, '%s of %s double flips accepted by IsValid, %s by the CRC compare; first: bits %s of %s%s'
+                      % (av, n, ac, first, label, phase_text(phase)), replay)
 
 
 def pairs_python(ctx, label, msg):
@@ -1111,19 +1390,29 @@ def pairs_python(ctx, label, msg):
     m = bytearray(msg)
     h = MessageHeader()
     n = 0
+    # the call form changes with the first bit: every CRC-requesting form that reads the buffer in place (offset 0), in rotation
+    forms = [f for f in crc_forms() if f[1] == 0]
     for i in range(32, nb):
         m[i >> 3] ^= 1 << (i & 7)
+        text, _, pos, kw, _ = forms[i % len(forms)]
         for j in range(i + 1, nb):
             m[j >> 3] ^= 1 << (j & 7)
             n += 1
+            ok = []
             try:
                 h.unpack(m, validate_crc=True, warn_on_unrecognized=False)
-                ok = True
+                ok.append('unpack(buffer, validate_crc=True, warn_on_unrecognized=False)')
             except ValueError:
-                ok = False
+                pass
+            try:
+                h.unpack(m, *pos, **kw)
+                ok.append(text)
+            except ValueError:
+                pass
             if ok:
-                ctx.violation('C06/double-accepted-by-validate_crc', 'unpack(validate_crc=True) accepts %s with bits %d and %d flipped' % (label, i, j),
-                              {'kind': 'flip', 'label': label, 'msg': hx(msg), 'bits': [i, j], 'altered': hx(m), 'flip_kind': 'double'})
+                ctx.violation('C06/double-accepted-by-validate_crc', '%s accepts %s with bits %d and %d flipped' % (' and '.join(ok), label, i, j),
+                              {'kind': 'flip', 'label': label, 'msg': hx(msg), 'bits': [i, j], 'altered': hx(m), 'flip_kind': 'double',
+                               'unpack_forms_accepting': ok})
             m[j >> 3] ^= 1 << (j & 7)
         m[i >> 3] ^= 1 << (i & 7)
     ctx.count('double_flips_exhaustive_python', n)
@@ -1189,7 +1478,7 @@ def check_crafted(ctx, exe):
         ctx.disagree('the encoder no longer returns the bytes of c06Crafted for its payload: %s' % meta[0][0].hex(), {'kind': 'valid', 'msg': meta[0][0].hex()})
     hout = run_harness(ctx, exe, hl)
     for (msg, bits), cx in zip(meta, hout):
-        judge_flip(ctx, 'crafted', msg, 'single', bits, cx, None, model_lines, model_pend, always_model=True)
+        judge_flip(ctx, 'crafted', msg, 'single', bits, cx, None, model_lines, model_pend, always_model=True, all_forms=True)
     outs = ctx.driver(model_lines)
     for (replay, want), got in zip(model_pend, outs):
         m = parse_kv(got)
@@ -1270,41 +1559,56 @@ def check(ctx):
     return fv.finish(ctx, 'proof', search)
 
 
+def replay_cxx(ctx, exe, line, phase):
+    """The harness's answer to one request: from main() of the usual executable, or in the phase / link order the replay names."""
+    if not phase:
+        return run_harness(ctx, exe, [line])[0]
+    return dict((ph, a) for ph, a in run_startup(ctx, [line]))[tuple(phase)][0]
+
+
 def replay(ctx, path):
     obj = json.load(open(path))
     r = obj['input']
     exe = build_harness(ctx)
     crc32 = repo_crc32()
     kind = r.get('kind')
+    phase = tuple(r['phase']) if r.get('phase') else None
+    if phase:
+        print('C++ answers: %s; link order: %s' % (dict(WHENS)[phase[1]], dict(ORDERS)[phase[0]]))
     if kind == 'crc':
         buf = bytes.fromhex(r['buf'].replace('-', ''))
-        cx = run_harness(ctx, exe, ['crc %d %s' % (r['init'], hx(buf))])[0]
+        cx = replay_cxx(ctx, exe, 'crc %d %s' % (r['init'], hx(buf)), phase)
         d = ctx.driver(['crctab %d %s' % (r['init'], hx(buf)), 'crcspec ' + hx(buf)])
-        judge_crc(ctx, buf, r['init'], crc32(buf, r['init']), cx, d[0], d[1] if r['init'] == 0 else None)
+        judge_crc(ctx, buf, r['init'], crc32(buf, r['init']), cx, d[0], d[1] if r['init'] == 0 else None, phase)
         print('python %d  c++ %s  lean %s' % (crc32(buf, r['init']), cx, d[0]))
     elif kind == 'split':
         buf = bytes.fromhex(r['buf'].replace('-', ''))
-        cx = run_harness(ctx, exe, ['split ' + hx(buf)])[0].split(',')
+        cx = replay_cxx(ctx, exe, 'split ' + hx(buf), phase).split(',')
         print('python %d  c++ %s  whole %d' % (crc32(buf[r['k']:], crc32(buf[:r['k']])), cx[r['k']], crc32(buf)))
-        if int(cx[r['k']]) != crc32(buf):
-            ctx.violation('C06/crc-incremental-cxx', 'split at %d' % r['k'], r)
+        judge_split_cxx(ctx, buf, r['k'], cx[r['k']], crc32(buf), phase)
     elif kind in ('flip', 'pairs') and 'bits' in r:
         msg = bytes.fromhex(r['msg'])
         bits = tuple(r['bits'])
         pad = (r['total'], r.get('fill', 0)) if r.get('total') else None
         tail = bytes([pad[1]]) * (pad[0] - len(msg)) if pad else b''
-        cx = run_mut(ctx, exe, [(msg, [bits_to_spec(bits)], pad)])[0][0]
+        if phase:
+            cx = replay_cxx(ctx, exe, 'mut %s %s' % (hx(msg), bits_to_spec(bits)), phase)
+        else:
+            cx = run_mut(ctx, exe, [(msg, [bits_to_spec(bits)], pad)])[0][0]
         lines, pend = [], []
-        judge_flip(ctx, r.get('label', '?'), msg, r.get('flip_kind', 'double'), bits, cx, None, lines, pend, tail=tail, fill=pad[1] if pad else 0)
+        judge_flip(ctx, r.get('label', '?'), msg, r.get('flip_kind', 'double'), bits, cx, None, lines, pend, tail=tail, fill=pad[1] if pad else 0,
+                   all_forms=True, phase=phase)
         bad = apply_bits(msg, bits) + tail
         print('altered %s%s: validate_crc -> %s, decoder -> %s, c++ (IsValid, crc compare, framer callbacks) -> %s'
               % (hx(bad[:len(msg)]), ' + %d bytes 0x%02x' % (len(tail), pad[1]) if pad else '', py_validate(bad),
                  py_decode(bad) if len(bad) <= 8192 else 'not run (long buffer)', cx))
+        through = forms_accepting([f for f in crc_forms() if f[1] == 0 or len(bad) <= 8192], bad)
+        print('unpack() call forms requesting validate_crc that accept it: %s' % ([t for t, _ in through] or 'none'))
     elif kind == 'valid':
         b = bytes.fromhex(r['msg'])
-        cx = run_harness(ctx, exe, ['msg ' + hx(b)])[0]
+        cx = replay_cxx(ctx, exe, 'msg ' + hx(b), phase)
         md = ctx.driver(['validate ' + hx(b)])[0]
-        judge_valid(ctx, r.get('label', '?'), b, cx, md)
+        judge_valid(ctx, r.get('label', '?'), b, cx, md, phase=phase)
         print('c++: %s\nmodel: %s' % (cx, md))
     elif kind == 'encode':
         from fusion_engine_client.messages import message_type_to_class
